@@ -142,12 +142,13 @@ static run_out run_rule( int cls, const char* data, const std::size_t n, const u
       }
       std::free( buf );
    }
-   else if( cls == 2 ) {
+   else if( cls == 2 || cls == 4 ) {
       if constexpr( std::is_base_of_v< memory_only, Rule > ) {
          return run_rule< Rule, Eol, St... >( 0, data, n, beyond );
       }
       else {
-         p::buffer_input< mem_reader, Eol, const char*, 4 > in( "c03", 48, mem_reader{ data, n, 3 } );
+         // class 4 (differential mode only): one byte per read - the parser never sees more than it asked for
+         p::buffer_input< mem_reader, Eol, const char*, 4 > in( "c03", cls == 4 ? 256 : 48, mem_reader{ data, n, cls == 4 ? std::size_t( 1 ) : std::size_t( 3 ) } );
          std::apply( [ & ]( auto&... s ) { parse_in< Rule, Eol >( in, o, s... ); }, st );
          o.consumed = in.byte();
       }
@@ -422,6 +423,37 @@ static bool check_case( std::size_t ri, int cls, const std::string& in )
    return true;
 }
 
+// C07 on the rule zoo: the result of a rule must not depend on whether the bytes come from memory or trickle in through a
+// buffer_input (3 bytes resp. 1 byte per read); std::overflow_error of the incremental input is the permitted deviation
+static bool diff_case( std::size_t ri, const std::string& in )
+{
+   const rule_entry& e = rules()[ ri ];
+   current_case = vf::jobj().str( "kind", "bounds-diff" ).str( "rule", e.name ).num( "cls", 0 ).str( "hex", vf::hexs( in ) ).str( "text", vf::show( in ) ).done();
+   R.eval();
+   vf::monitor& m = vf::mon();
+   m.reset();
+   m.base = in.data();
+   const run_out a = e.fn( 0, in.data(), in.size(), 0xbf );
+   bool ok = true;
+   for( int cls : { 2, 4 } ) {
+      m.reset();
+      m.base = in.data();
+      const run_out b = e.fn( cls, in.data(), in.size(), 0xbf );
+      if( b.k == 3 ) {
+         R.cls( "buffer-runs-ending-in-overflow_error" );
+         continue;
+      }
+      R.nontrivial( vf::mix( vf::mix( vf::fnv( e.name ), vf::fnv( in ) ), std::uint64_t( cls ) ) );
+      if( b.k != a.k || b.consumed != a.consumed ) {
+         static const char* const kn[] = { "false", "true", "parse_error", "overflow_error", "other exception" };
+         R.fail( std::string( "zoo:buffer_input-differs:" ) + e.name, current_case, std::string( e.name ) + " on '" + vf::show( in ) + "': memory_input gives " + kn[ a.k ] + " consuming " + std::to_string( a.consumed ) + ", buffer_input fed " + ( cls == 4 ? "1 byte" : "3 bytes" ) + " per read gives " + kn[ b.k ] + " consuming " + std::to_string( b.consumed ) );
+         ok = false;
+         break;
+      }
+   }
+   return ok;
+}
+
 #if defined( VF_FUZZ )
 
 static void flush_report()
@@ -505,7 +537,12 @@ int main( int argc, char** argv )
       }
       for( std::size_t i = 0; i < rules().size(); ++i ) {
          if( rule == rules()[ i ].name ) {
-            check_case( i, cls, in );
+            if( vf::jget( js, "kind" ) == "bounds-diff" ) {
+               diff_case( i, in );
+            }
+            else {
+               check_case( i, cls, in );
+            }
          }
       }
       R.write( A.out );
@@ -518,6 +555,26 @@ int main( int argc, char** argv )
       const rule_entry& e = rules()[ ri ];
       for( const std::string& seed : e.seeds ) {
          if( counter++ % ns != sh ) {
+            continue;
+         }
+         if( A.get( "prop", "C03" ) == "C07" ) {
+            for( std::size_t cut = 0; cut <= seed.size(); ++cut ) {
+               diff_case( ri, seed.substr( 0, cut ) );
+            }
+            for( std::size_t pos = 0; pos < seed.size(); ++pos ) {
+               for( unsigned char rb : repl ) {
+                  std::string m = seed;
+                  m[ pos ] = char( rb );
+                  diff_case( ri, m );
+               }
+            }
+            for( const char* tail : { "0", "9", "a", "\xbf", "=", "]", "\r", ".", ":" } ) {
+               diff_case( ri, seed + tail );
+            }
+            diff_case( ri, seed + seed );
+            if( R.want_sample() ) {
+               R.sample( vf::jobj().str( "rule", e.name ).str( "seed", vf::show( seed ) ).str( "derived", "all truncations, every byte x 17 replacement bytes, 10 extensions; memory_input vs buffer_input with 3-byte and 1-byte reads" ).done() );
+            }
             continue;
          }
          for( int cls = 0; cls < 4; ++cls ) {
